@@ -150,12 +150,14 @@ def _guard_dominates(f, view, vstmt, st):
     return False
 
 
-def run(ctx):
+def run(ctx, only=None):
     ctx.group('R-VALID')
     repo = ctx.repo
     work = work_functions(repo)
     n_obl = 0
     for f, obligations, whens in entry_points(repo):
+        if only is not None and f.name not in only:
+            continue
         view = view_of(f)
         insts = collect(repo, f)
         # ---- V1
@@ -242,4 +244,4 @@ def run(ctx):
                       '%s at line %s is not preceded by %s: an invalid argument fails with the wrong exception'
                       % (label, getattr(bad, 'lineno', '?'), key), bad if bad is not None else f.node,
                       sample='%d uses of %s dominated' % (len(uses), label))
-    ctx.floor('R-VALID', n_obl, 150, 'obligations')
+    ctx.floor('R-VALID', n_obl, 150 if only is None else 2, 'obligations')
